@@ -27,11 +27,13 @@ _MARKERS = ['EOF', 'END', '-', 'eof_1', 'E-O-F']
 _UNKNOWN_HEADERS = ['[nophase]', '[acts]', '[setup-x]', '[assertion]', '[x]', '  [before assert] ', '[main]']
 _MALFORMED_HEADERS = ['[setup', '[setup] x', '[ ]', '[]', '[setup]]', '[[setup]', '[setup][act]', '[', ' [assert ] ',
                       '[-setup]', '[act] # c']
-_COMMENTS = ['# comment', '#', '  # indented comment', '#[setup]', '# including x.xly', '\t#tab', '# `tick`']
+_COMMENTS = ['# comment', '#', '  # indented comment', '#[setup]', '# including x.xly', '\t#tab', '# `tick`',
+             '# k\u00f6mment \u2603']
 _BLANKS = ['', '', '   ', '\t']
 _HEREDOC_BODY = ['[assert]', '  [setup]', '[nophase]', '[setup', '# not a comment', '', '   ', 'including x.xly',
-                 'plain text', '`tick`', '\\[x]', 'dir z', '$ echo x', 'text with ( paren', '<<EOF', 'a ||']
-_DESC_TEXTS = ['d', 'the description', 'with [assert] inside', 'x # y', 'dir z', '', ' padded ']
+                 'plain text', '`tick`', '\\[x]', 'dir z', '$ echo x', 'text with ( paren', '<<EOF', 'a ||',
+                 '\u00e5\u00e4\u00f6 \u2603 text', 'a \\', '{', '}']
+_DESC_TEXTS = ['d', 'the description', 'with [assert] inside', 'x # y', 'dir z', '', ' padded ', 'b\u00e4ckticks \u2603']
 
 
 _INT = {}
@@ -58,8 +60,9 @@ def _w(draw, pairs):
 
 
 class _Gen:
-    def __init__(self, draw, mode, root_items, inc_items, max_files, max_depth=3, plant=None):
+    def __init__(self, draw, mode, root_items, inc_items, max_files, max_depth=3, plant=None, root=ROOT):
         self.draw = draw
+        self.root = root
         self.mode = mode
         self.root_items = root_items
         self.inc_items = inc_items
@@ -159,10 +162,22 @@ class _Gen:
             ['def integer-matcher %s = (' % t, '', '  ( == %d )' % n, '', ' || == %d )' % (n + 1)],
             ['def line-matcher %s = ( line-num == 1' % t, '&&', 'contents is-empty )'],
         ]
+        # FILES-SOURCE / FILES-CONDITION within braces (one file per line), STDIN of a program on its own line
+        t = t.lower()
+        forms += [
+            ['dir %s = {' % t, '  file a', '  dir b', '}'],
+            ['dir %s = {' % t, '  file a = <<EOF', '[assert]', '# no comment', 'EOF', '', '  dir b = {', '    file c', '  }',
+             '}'],
+            ['dir %s = {' % t, '}'],
+            ['run % cat', '  -stdin <<EOF', '[act]', 'text', 'EOF'],
+            ['run % cat', '-stdin "text"'],
+        ]
         if phase == 'assert':
             c = self.code
             forms += [
-                ['exit-code ( == %d ||' % c, ' == %d )' % ((c + 1) % 256)],
+                ['dir-contents . : ! matches {', '  no-such-file-%s : type file' % t, '}'],
+                ['dir-contents . : ! matches -full {', '  no-such-file-%s : type file' % t, '',
+                 '  no-such-dir-%s : type dir' % t, '}'],
                 ['exit-code (', ' == %d' % c, ')'],
                 ['exit-code (', '', ' ( ! == %d )' % ((c + 1) % 256), ' && >= 0', ')'],
                 ['stderr ( equals <<EOF', '[setup]', 'x', 'EOF', ' || is-empty )'],
@@ -215,11 +230,15 @@ class _Gen:
     # ---- inclusion --------------------------------------------------------
     def new_path(self, from_dir):
         d = self.choice(_DIRS)
-        return posixpath.join(d, 'inc%d.xly' % (len(self.files)))
+        form = _w(self.draw, [(10, 'inc%d.xly'), (1, '[inc%d].xly'), (1, '#inc%d.xly'), (1, 'inc-\u00f6-%d.xly'),
+                              (1, 'inc%d')])
+        return posixpath.join(d, form % (len(self.files)))
 
     def rel_ref(self, from_path, target):
         rel = posixpath.relpath(target, posixpath.dirname(from_path) or '.')
-        style = _w(self.draw, [(8, 'plain'), (1, 'dot'), (1, 'updown')])
+        style = _w(self.draw, [(16, 'plain'), (2, 'dot'), (2, 'updown'), (1, 'absolute')])
+        if style == 'absolute':
+            return '{HOME}/' + target
         if style == 'dot':
             return './' + rel
         if style == 'updown' and posixpath.dirname(from_path):
@@ -331,7 +350,8 @@ class _Gen:
                 if self.mode == 'exec' and got and got[0].startswith('file '):
                     # make the contents of the here-document visible in the marker trace
                     lines.append('$ cat %s >> {MARKERS}' % got[0].split()[1])
-                idem = idem and (phase == 'assert' and not got[0].startswith(('def', 'file'))) if got else idem
+                idem = idem and got[0].startswith(('exit-code', 'stderr', 'stdout', 'dir-contents', 'run ')) \
+                    if got else idem
             elif kind == 'desc':
                 lines.extend(self.described(phase))
                 idem = False
@@ -352,6 +372,8 @@ class _Gen:
                     pool = ['status =', 'actor =', 'home =', 'status']
                 lines.append(self.choice(pool))
                 follower = True
+                # (a comment line after an incomplete instruction has two documented readings: rare)
+                gap_pool = _BLANKS if self.draw(_int_below(8)) else _COMMENTS[:4]
             elif kind == 'unknown_instr':
                 other = {'conf': 'dir x', 'setup': 'exists x', 'before-assert': 'stdin = "x"', 'assert': 'status = PASS',
                          'cleanup': 'exit-code == 0'}[phase]
@@ -371,6 +393,7 @@ class _Gen:
                 if phase == 'conf':
                     lines.append('status =')
                     follower = True
+                    gap_pool = _BLANKS
                 else:
                     form = self.choice(['paren', 'paren', 'operator', 'list'])
                     if form == 'paren':
@@ -549,7 +572,7 @@ class _Gen:
 
     def finish_exec(self):
         """makes the document executable: actor, exit code of the action, the planted element"""
-        root = self.files[ROOT]
+        root = self.files[self.root]
         if root and not root.endswith('\n'):
             root += '\n'
         tail = []
@@ -559,7 +582,7 @@ class _Gen:
             self.plant['kind'] = self.choice(['instr', 'instr_multi', 'instr', 'instr_multi', 'syntax_unknown'])
             if self.plant.get('exec_only'):
                 self.plant['kind'] = self.choice(['instr', 'instr_multi'])
-            got = self.planted_item(ROOT, phase, 0, [ROOT])
+            got = self.planted_item(self.root, phase, 0, [self.root])
             self.planted['line0'] = len(ref_lines(root)) + len(tail)
             self.planted['n'] = len(got)
             tail.extend(got)
@@ -583,9 +606,9 @@ class _Gen:
             all_lines = lines + conf + pre + tail
             if late_plant is not None:
                 self.planted['line0'] += len(conf) + len(pre)
-        if self.planted is not None and self.planted['file'] == ROOT:
+        if self.planted is not None and self.planted['file'] == self.root:
             self.planted['line0'] += shift
-        self.files[ROOT] = '\n'.join(all_lines) + '\n'
+        self.files[self.root] = '\n'.join(all_lines) + '\n'
 
 
 def ref_lines(text):
@@ -595,10 +618,18 @@ def ref_lines(text):
     return lines
 
 
-def _build(draw, mode, root_items, inc_items, max_files):
-    g = _Gen(draw, mode, root_items, inc_items, max_files)
-    g.gen_file(ROOT, 'act', 0, [ROOT])
+_ROOTS = [ROOT, ROOT, ROOT, 'cases/t.case', 'sub/t.case']
+
+
+def _build(draw, mode, root_items, inc_items, max_files, max_depth=3):
+    root = _ROOTS[draw(_int_below(len(_ROOTS)))]
+    g = _Gen(draw, mode, root_items, inc_items, max_files, max_depth=max_depth, root=root)
+    g.gen_file(root, 'act', 0, [root])
     case = {'files': dict(sorted(g.files.items()))}
+    if root != ROOT:
+        case['root'] = root
+    if draw(_int_below(8)) == 0:
+        case['root_abs'] = True  # the test case file is given by its absolute path
     if g.dirs:
         case['dirs'] = sorted(g.dirs)
     if g.symlinks:
@@ -607,22 +638,23 @@ def _build(draw, mode, root_items, inc_items, max_files):
 
 
 @st.composite
-def _api_case(draw, root_items, inc_items, max_files):
-    return _build(draw, 'api', root_items, inc_items, max_files)
+def _api_case(draw, root_items, inc_items, max_files, max_depth=3):
+    return _build(draw, 'api', root_items, inc_items, max_files, max_depth)
 
 
 def api_strategy(tier):
     if tier == 'quick':
         return _api_case(14, 6, 5)
-    return _api_case(24, 8, 7)
+    return _api_case(24, 8, 8, 5)
 
 
 _CODES = [0, 0, 0, 3, 7, 255]
 
 
 @st.composite
-def _exec_case(draw, root_items, inc_items, max_files, plant, swaps):
-    g = _Gen(draw, 'exec', root_items, inc_items, max_files)
+def _exec_case(draw, root_items, inc_items, max_files, plant, swaps, max_depth=3):
+    root = _ROOTS[draw(_int_below(len(_ROOTS)))]
+    g = _Gen(draw, 'exec', root_items, inc_items, max_files, max_depth=max_depth, root=root)
     g.code = _CODES[draw(_int_below(len(_CODES)))]
     want_plant = plant == 'always' or (plant == 'sometimes' and draw(_int_below(3)) == 0)
     if want_plant:
@@ -630,20 +662,24 @@ def _exec_case(draw, root_items, inc_items, max_files, plant, swaps):
         if plant == 'sometimes':
             g.plant['kind'] = ['instr', 'instr_multi'][draw(_int_below(2))]  # failing instructions only
             g.plant['exec_only'] = True
-    g.gen_file(ROOT, 'act', 0, [ROOT])
+    g.gen_file(root, 'act', 0, [root])
     g.finish_exec()
     case = {'files': dict(sorted(g.files.items())), 'code': g.code, 'plant': g.planted}
+    if root != ROOT:
+        case['root'] = root
+    if draw(_int_below(8)) == 0:
+        case['root_abs'] = True  # the test case file is given by its absolute path
     if swaps:
         case['swaps'] = draw(st.lists(st.integers(0, 1000), min_size=4, max_size=24))
     return case
 
 
 def cli_location_strategy(tier):
-    return _exec_case(10, 5, 4, 'always', False) if tier == 'quick' else _exec_case(16, 6, 6, 'always', False)
+    return _exec_case(10, 5, 4, 'always', False) if tier == 'quick' else _exec_case(16, 6, 7, 'always', False, 5)
 
 
 def cli_permutation_strategy(tier):
-    return _exec_case(12, 5, 4, 'sometimes', True) if tier == 'quick' else _exec_case(18, 6, 6, 'sometimes', True)
+    return _exec_case(12, 5, 4, 'sometimes', True) if tier == 'quick' else _exec_case(18, 6, 7, 'sometimes', True, 5)
 
 
 # ---- exhaustive enumeration over a small alphabet --------------------------------------
